@@ -45,6 +45,9 @@ pub struct Case {
     /// the U2F authentication: the stored counter is then ahead of the counter the U2F caller supplies
     #[serde(default)]
     pub ctap2_assertions: u8,
+    /// the contract store hands credentials back with the members of their COSE key in reverse order
+    #[serde(default)]
+    pub reordered_keys: bool,
 }
 
 // ---- raw message oracle
@@ -253,7 +256,10 @@ pub fn eval(c: &Case) -> (Vec<Finding>, String) {
             }
         }};
     }
-    if c.option_store {
+    if c.reordered_keys {
+        let shared = Shared::new(RefStore::new());
+        body!(ReorderKeys { inner: shared.clone() }, shared.recs());
+    } else if c.option_store {
         let shared: Arc<tokio::sync::Mutex<Option<passkey_types::Passkey>>> = Arc::new(tokio::sync::Mutex::new(None));
         body!(shared.clone(), shared.recs());
     } else if c.memory_store {
@@ -530,11 +536,11 @@ pub fn cases(tier: Tier) -> Vec<Case> {
     let counters = [0u32, 1, 0x8000_0000, 0xFFFF_FFFF];
     for hl in 0..=255usize {
         let k = hl % 4;
-        v.push(Case { challenge: k as u8, application: ((k + 1) % 4) as u8, handle_len: hl, counter: counters[k], presence: hl % 2 == 0, memory_store: hl % 3 == 0, p1: [0u8, 7, 8][hl % 3], flags: [0u8, 4][(hl / 3) % 2], option_store: hl % 5 == 1, ctap2_assertions: [0u8, 0, 3][hl % 3] });
+        v.push(Case { challenge: k as u8, application: ((k + 1) % 4) as u8, handle_len: hl, counter: counters[k], presence: hl % 2 == 0, memory_store: hl % 3 == 0, p1: [0u8, 7, 8][hl % 3], flags: [0u8, 4][(hl / 3) % 2], option_store: hl % 5 == 1, ctap2_assertions: [0u8, 0, 3][hl % 3], reordered_keys: hl % 7 == 2 });
         if tier == Tier::Thorough {
             for memory_store in [false, true] {
                 for presence in [false, true] {
-                    v.push(Case { challenge: ((k + 2) % 4) as u8, application: ((k + 2) % 4) as u8, handle_len: hl, counter: counters[(k + 1) % 4], presence, memory_store, p1: [0u8, 7, 8][(hl / 2) % 3], flags: 0, option_store: false, ctap2_assertions: 0 });
+                    v.push(Case { challenge: ((k + 2) % 4) as u8, application: ((k + 2) % 4) as u8, handle_len: hl, counter: counters[(k + 1) % 4], presence, memory_store, p1: [0u8, 7, 8][(hl / 2) % 3], flags: 0, option_store: false, ctap2_assertions: 0, reordered_keys: false });
                 }
             }
         }
@@ -546,12 +552,15 @@ pub fn cases(tier: Tier) -> Vec<Case> {
                     for memory_store in [false, true] {
                         for p1 in [0u8, 7, 8] {
                             for flags in [0u8, 4] {
-                                v.push(Case { challenge, application, handle_len: 32, counter, presence, memory_store, p1, flags, option_store: false, ctap2_assertions: 0 });
+                                v.push(Case { challenge, application, handle_len: 32, counter, presence, memory_store, p1, flags, option_store: false, ctap2_assertions: 0, reordered_keys: false });
                                 if !memory_store {
-                                    v.push(Case { challenge, application, handle_len: 32, counter, presence, memory_store, p1, flags, option_store: true, ctap2_assertions: 0 });
+                                    v.push(Case { challenge, application, handle_len: 32, counter, presence, memory_store, p1, flags, option_store: true, ctap2_assertions: 0, reordered_keys: false });
                                 }
                                 if flags == 0 && p1 == 0 {
-                                    v.push(Case { challenge, application, handle_len: 32, counter, presence, memory_store, p1, flags, option_store: false, ctap2_assertions: 3 });
+                                    v.push(Case { challenge, application, handle_len: 32, counter, presence, memory_store, p1, flags, option_store: false, ctap2_assertions: 3, reordered_keys: false });
+                                    if !memory_store {
+                                        v.push(Case { challenge, application, handle_len: 32, counter, presence, memory_store, p1, flags, option_store: false, ctap2_assertions: 3, reordered_keys: true });
+                                    }
                                 }
                             }
                         }
@@ -598,7 +607,7 @@ pub fn run(ctx: &Ctx) -> Result<Run, String> {
     let n = cs.len() as u64;
     let mut run = Run::from_stats(
         "model_checking",
-        "single register+authenticate+unknown-handle runs for every key-handle length 0..255 and the product challenge/application patterns(4x4, incl. equal) x counter {0,1,2^31,2^32-1} x presence x control byte {0x03, 0x07, 0x08} x further flag bits {none, UV} x {0, 3} CTAP2 assertions with the credential before the U2F authentication x {RefStore, Arc<Mutex<MemoryStore>>, Arc<Mutex<Option<Passkey>>>} (unknown handles: the registered one plus a byte, minus a byte, with a changed byte, and the empty handle); response structs with certificate/handle/signature lengths the authenticator itself never produces encoded directly; every well-formed extended-length request frame (register, authenticate with P1 in {3,7,8} and every handle length, version; with and without trailing Le) parsed back; BFS over sequences of register(h in 2, app in 2) / authenticate(h in 2 + unknown, app in 2) on ONE authenticator instance over the contract store, Arc<Mutex<MemoryStore>> and the single-slot Arc<Mutex<Option<Passkey>>> (a handle whose credential was replaced is unknown again; one step deeper); the complete history tree to depth 4, histories merged on equal store content beyond that. Signatures are verified with p256 over the byte strings of the U2F raw-message specification; raw encodings are parsed by the harness",
+        "single register+authenticate+unknown-handle runs for every key-handle length 0..255 and the product challenge/application patterns(4x4, incl. equal) x counter {0,1,2^31,2^32-1} x presence x control byte {0x03, 0x07, 0x08} x further flag bits {none, UV} x {0, 3} CTAP2 assertions with the credential before the U2F authentication x {RefStore, Arc<Mutex<MemoryStore>>, Arc<Mutex<Option<Passkey>>>, a store that returns the COSE key members in reverse order} (unknown handles: the registered one plus a byte, minus a byte, with a changed byte, and the empty handle); response structs with certificate/handle/signature lengths the authenticator itself never produces encoded directly; every well-formed extended-length request frame (register, authenticate with P1 in {3,7,8} and every handle length, version; with and without trailing Le) parsed back; BFS over sequences of register(h in 2, app in 2) / authenticate(h in 2 + unknown, app in 2) on ONE authenticator instance over the contract store, Arc<Mutex<MemoryStore>> and the single-slot Arc<Mutex<Option<Passkey>>> (a handle whose credential was replaced is unknown again; one step deeper); the complete history tree to depth 4, histories merged on equal store content beyond that. Signatures are verified with p256 over the byte strings of the U2F raw-message specification; raw encodings are parsed by the harness",
         true,
         stats,
     );
